@@ -40,7 +40,7 @@ fn gen_elem(src: &mut Src, depth: usize, floats: bool) -> J {
         }
         // (strings with a quotation mark at an end: inch marks, `'t Hooft`, quoted words - a helper that trims
         // quotes from a pattern or a name must not be applied to them; a blank at an end likewise)
-        1 => J::Str(src.pick(&["a", "b", "c", "", "1", "a", "b", "1", "15\"", "'t", "\"a\"", "'a'", "a'", "\"", " a", "a ", "A"]).to_string()),
+        1 => J::Str(src.pick(&["a", "b", "c", "", "1", "a", "b", "1", "15\"", "'t", "\"a\"", "'a'", "a'", "\"", " a", "a ", "A", "\u{e9}", "Z\u{fc}rich", "\u{65e5}\u{672c}\u{8a9e}", "\u{1d11e}", "e\u{301}"]).to_string()),
         2 => J::Null,
         3 => J::Bool(src.bool()),
         4 => {
@@ -226,7 +226,7 @@ fn random_forms(src: &mut Src, obs: &mut Obs) -> Res {
             let lit = match src.below(5) {
                 0 if floats => Lit::Num(num_lit_float(*src.pick(&[0.0, -0.0, 0.5, 1.5]))),
                 0 => Lit::Num(num_lit_int(src.range(0, 4))),
-                1 => Lit::Str(StrLit::plain(*src.pick(&["a", "b", "c", "", "1", "(", "f(x)", ")", "15\"", "'t", "\"a\"", "'a'", "a'", "\"", " a", "A"]))),
+                1 => Lit::Str(StrLit::plain(*src.pick(&["a", "b", "c", "", "1", "(", "f(x)", ")", "15\"", "'t", "\"a\"", "'a'", "a'", "\"", " a", "A", "\u{e9}", "Z\u{fc}rich", "\u{65e5}\u{672c}\u{8a9e}", "\u{1d11e}"]))),
                 2 => Lit::Null,
                 3 => Lit::Bool(true),
                 _ => Lit::Bool(false),
